@@ -120,9 +120,32 @@ void sim_yield(int point)
 {
   World* W = g_world;
   if (!W || !W->in_poll) return;
-  if (point >= 1 && point <= 5) ++W->yields[point];
+  if (point >= 1 && point <= 6) ++W->yields[point];
   if (point == 5) { W->idle_seen = true; W->exited_since_idle = 0; }
   if (W->draining) return;
+  if (point == 6)
+  {
+    // Y6 may run under the logger registry lock: only operations that never take it (log through an existing logger,
+    // non-blocking removal, thread exit, tick)
+    if (!is_prop("C17") || W->burst_budget <= 0 || W->c->pick(3) != 2) return;
+    ++W->bursts_at[6];
+    W->cur_point = 6;
+    unsigned n = 1 + W->c->pick(3);
+    for (unsigned k = 0; k < n && W->burst_budget > 0 && !W->r->failed; ++k)
+    {
+      --W->burst_budget;
+      ++W->op_counter;
+      switch (W->c->weighted({4, 3, 1, 1}))
+      {
+      case 0: op_log(*W, pick_worker(*W), true, 6); break;
+      case 1: op_remove_logger(*W, pick_worker(*W), false); break;
+      case 2: op_tick(*W); break;
+      default: op_exit_thread(*W, pick_worker(*W)); break;
+      }
+    }
+    W->cur_point = 0;
+    return;
+  }
   if (point == 2 && W->force_pair_at_y2_hit > 0 && ++W->y2_hits_in_poll == W->force_pair_at_y2_hit)
   {
     W->force_pair_at_y2_hit = 0;
@@ -418,7 +441,7 @@ void classify(World& W, Report& r)
     std::ostringstream o;
     o << "stmts=" << W.stmts.size() << " flushes=" << W.flushes.size() << " writes=" << count_writes(W) << " polls=" << W.polls
       << " yields=" << W.yields[1] << "/" << W.yields[2] << "/" << W.yields[3] << "/" << W.yields[4] << "/" << W.yields[5]
-      << " bursts=" << W.bursts_at[1] << "/" << W.bursts_at[2] << "/" << W.bursts_at[3] << "/" << W.bursts_at[4] << "/" << W.bursts_at[5]
+      << " bursts=" << W.bursts_at[1] << "/" << W.bursts_at[2] << "/" << W.bursts_at[3] << "/" << W.bursts_at[4] << "/" << W.bursts_at[5] << "/" << W.bursts_at[6]
       << " notes=" << W.notes.size() << " threads=" << W.workers.size();
     r.line(o.str());
   }
@@ -437,7 +460,7 @@ void classify(World& W, Report& r)
     if (s.kind == SKind::MacroDynamic && s.accepted) dyn = true;
     if (s.kind == SKind::MacroStatic && s.accepted) stat = true;
   }
-  for (int p = 1; p <= 5; ++p) if (W.bursts_at[p]) r.label("burst_at_Y" + std::to_string(p));
+  for (int p = 1; p <= 6; ++p) if (W.bursts_at[p]) r.label("burst_at_Y" + std::to_string(p));
   if (W.lbl_exit_with_pending) r.label("thread_exited_with_unwritten_statements");
   if (W.lbl_blocked) r.label("worker_blocked_at_least_once");
   if (W.lbl_stall) r.label("stall_in_clock_read");
